@@ -111,19 +111,25 @@ func runC36(c *an.Ctx) {
 		}
 		return false
 	}
-	sizeCmp := &an.Guard{Name: "size >= limit", FailValue: an.ATrue, MatchValue: func(v ssa.Value) bool {
-		b, ok := v.(*ssa.BinOp)
-		if !ok || b.Op != token.GEQ {
-			return false
-		}
-		x := b.X
+	// size >= limit, in any spelling (limit <= size, !(size < limit), ...)
+	isSize := func(x ssa.Value) bool {
 		if cv, isC := x.(*ssa.Convert); isC {
 			x = cv.X
 		}
 		k, isCall := x.(*ssa.Call)
 		return isCall && isSetOp(k, "Size")
-	}}
-	v := an.Guarded(c.P, save, []*an.Guard{sizeCmp}, isAdd, false)
+	}
+	notSize := func(y ssa.Value) bool { return !isSize(y) }
+	sizeMatch := func(v ssa.Value) bool { m, _ := relMatch(v, token.GEQ, isSize, notSize); return m }
+	limitOf := func(v ssa.Value) ssa.Value {
+		b := v.(*ssa.BinOp)
+		if isSize(b.X) {
+			return b.Y
+		}
+		return b.X
+	}
+	sizeCmp := relGuards("size >= limit", token.GEQ, isSize, notSize)
+	v := an.Guarded(c.P, save, sizeCmp, isAdd, false)
 	afterLock := true
 	findAll := func(match func(ssa.Value) bool) []ssa.Value {
 		var out []ssa.Value
@@ -132,7 +138,7 @@ func runC36(c *an.Ctx) {
 		}
 		return out
 	}
-	for _, val := range findAll(sizeCmp.MatchValue) {
+	for _, val := range findAll(sizeMatch) {
 		if ok, _ := an.MustPass(c.P, save, locks, []ssa.Instruction{val.(ssa.Instruction)}, nil); !ok {
 			afterLock = false
 		}
@@ -141,10 +147,10 @@ func runC36(c *an.Ctx) {
 		fmt.Sprintf("size comparisons in savePeer: %d; %s", v.GuardSites, v.Witness))
 	// the limit is selected by direction: the right operand is a phi/select of MaxConnInBound / MaxConnOutBound
 	okLimit := false
-	for _, val := range findAll(sizeCmp.MatchValue) {
+	for _, val := range findAll(sizeMatch) {
 		names := map[string]bool{}
 		// the limit, possibly returned by a private selector helper (boundLimit(index))
-		for _, d := range an.Deref(save, val.(*ssa.BinOp).Y) {
+		for _, d := range an.Deref(save, limitOf(val)) {
 			for _, s := range an.AllSources(d) {
 				if f := fieldOfLoad(s); f != nil {
 					names[f.Name()] = true
@@ -157,14 +163,11 @@ func runC36(c *an.Ctx) {
 	}
 	c.Check(okLimit, "same-subject|savePeer|limit-by-direction", "the limit compared is MaxConnInBound for inbound and MaxConnOutBound for outbound", c.P.Rel(save.Pos()), "the compared limit is not selected from MaxConnInBound/MaxConnOutBound")
 	// per-IP
-	perIP := &an.Guard{Name: "perIP >= MaxConnInBoundPerIP", FailValue: an.ATrue, MatchValue: func(v ssa.Value) bool {
-		b, ok := v.(*ssa.BinOp)
-		if !ok || b.Op != token.GEQ {
-			return false
-		}
-		f := fieldOfLoad(b.Y)
+	isPerIPLimit := func(y ssa.Value) bool {
+		f := fieldOfLoad(y)
 		return f != nil && f.Name() == "MaxConnInBoundPerIP"
-	}}
+	}
+	perIP := relGuards("perIP >= MaxConnInBoundPerIP", token.GEQ, func(x ssa.Value) bool { return !isPerIPLimit(x) }, isPerIPLimit)
 	extra := map[ssa.Value]an.Abs{}
 	idxName := ""
 	for _, p := range save.Params {
@@ -188,7 +191,7 @@ func runC36(c *an.Ctx) {
 			extra[val] = an.AFalse
 		}
 	}
-	v = an.GuardedX(c.P, save, []*an.Guard{perIP}, extra, isAdd, false)
+	v = an.GuardedX(c.P, save, perIP, extra, isAdd, false)
 	c.Check(v.Holds && v.GuardSites == 1 && len(extra) >= 1, "atomic|savePeer|per-ip-checked-in-section", "for inbound connections the per-IP count is compared with MaxConnInBoundPerIP inside the same critical section", c.P.Rel(save.Pos()), fmt.Sprintf("per-IP comparisons: %d; %s", v.GuardSites, v.Witness))
 	// removals under the mutex
 	for _, fn := range c.P.RepoSrcFuncs(cc) {
